@@ -70,12 +70,16 @@ def _get_const_repr(const_node):
     tensor_proto = attr.t
     if tensor_proto.data_type in {TensorProto.FLOAT, TensorProto.INT64}:
         rank = len(tensor_proto.dims)
+        if rank > 1 or (rank == 1 and not 0 < tensor_proto.dims[0] < 5):
+            # An empty list literal has no element type the converter could use.
+            return None
+        nparray = onnx.numpy_helper.to_array(tensor_proto)  # noqa: TID251
+        if nparray.dtype.kind == "f" and not np.isfinite(nparray).all():
+            # nan and inf have no literal form in Python source.
+            return None
         if rank == 0:
-            array = onnx.numpy_helper.to_array(tensor_proto).reshape(1)  # noqa: TID251
-            return str(array[0])
-        if rank == 1 and tensor_proto.dims[0] < 5:
-            nparray = onnx.numpy_helper.to_array(tensor_proto)  # noqa: TID251
-            return repr(nparray.tolist())
+            return str(nparray.reshape(1)[0])
+        return repr(nparray.tolist())
     return None
 
 
@@ -401,15 +405,24 @@ class _Exporter:
                 continue
             if isinstance(value, np.ndarray):
                 onnx_dtype = at.t.data_type
+
+                def values_repr(values) -> str:
+                    text = repr(values)
+                    if value.dtype.kind in "fc":
+                        # nan / inf are not Python literals. (Only for numeric tensors: the
+                        # payload of a string tensor may contain these letters.)
+                        text = text.replace("nan", "np.nan").replace("inf", "np.inf")
+                    return text
+
                 if len(value.shape) == 0:
                     text = (
                         f'make_tensor("value", {onnx_dtype}, dims=[], '
-                        f"vals=[{repr(value.tolist()).replace('nan', 'np.nan').replace('inf', 'np.inf')}])"
+                        f"vals=[{values_repr(value.tolist())}])"
                     )
                 else:
                     text = (
                         f'make_tensor("value", {onnx_dtype}, dims={list(value.shape)!r}, '
-                        f"vals={repr(value.ravel().tolist()).replace('nan', 'np.nan').replace('inf', 'np.inf')})"
+                        f"vals={values_repr(value.ravel().tolist())})"
                     )
                 attributes.append((at.name, text))
                 continue
